@@ -297,7 +297,7 @@ func c17Copy(c *Ctx, rel string) {
 		add := ana.CallsTo(f, "("+pkgName+".koblitzCurve).addJacobian")
 		okBody := len(dbl) == 1 && len(add) == 1
 		if okBody {
-			top := plainEdges(edgesMatching(b, "bin<==>(bin<&>($byte, 128), 128)", "bin<!=>(bin<&>($byte, 128), 0)"))
+			top := plainEdges(edgesMatching(b, "bin<>=>($byte, 128)")) // canonical form of every top-bit test of a byte (b&0x80 == 0x80, b&0x80 != 0, b>>7 != 0, b > 127)
 			okBody = mustPass(f, add[0].Block(), top) && !mustPass(f, dbl[0].Block(), top) && ana.InstrDominates(dbl[0], add[0])
 			at := b.CallTermAt(add[0])
 			bd, m := ana.Match("call<*>(p0, p1, p2, $bz, _, _, _)", at)
@@ -325,8 +325,8 @@ func c17Copy(c *Ctx, rel string) {
 			// the tested byte is shifted left by one each iteration
 			shl := false
 			for _, ce := range b.CondEdges() {
-				if bd, ok := ana.Match("bin<==>(bin<&>($byte, 128), 128)", ce.Lit); ok {
-					if _, m := ana.Match("phi(bin<<<>(cycle, 1), load(iaddr(p3, bin<+>(ind<+1>(-1), 1))))", bd["$byte"]); m {
+				if bd, ok := ana.Match("bin<>=>($byte, 128)", ce.Lit); ok {
+					if _, m := ana.Match("phi(bin<<<>(cycle, 1), load(iaddr(p3, ind<+1>(0))))", bd["$byte"]); m {
 						shl = true
 					}
 				}
